@@ -41,7 +41,8 @@ DIM_REQUIRED = [
     "janus tie: N_active < N", "janus tie: callbacks", "janus tie: additional force", "janus tie: softening", "janus tie: no snapping step",
     "sym: safe_mode = 0, synchronize only at the turning point", "sym: restore at the turning point", "sym: dt changed by the user mid-run",
     "sym: COM offset + boost (no move_to_com)", "sym: massless test particles", "sym: callbacks pre/post", "sym: additional force, velocity independent",
-    "sym: variational particles with non-zero data", "sym: documented recalculation flag set by the user", "sym: dt < 0 first", "sym: hyperbolic member", "sym: eccentric member, long steps", "sym: G != 1",
+    "sym: variational particles with non-zero data", "sym: documented recalculation flag set by the user", "sym: dt < 0 first",
+    "sym: half step pending when integrate(t) is asked to synchronize", "sym: keep_unsynchronized = 1", "sym: steps taken by integrate()", "sym: hyperbolic member", "sym: eccentric member, long steps", "sym: G != 1",
     "sei: dt changed by the user mid-run", "sei: restore at the turning point", "sei: shear boundary crossed, no self-gravity", "sei: OMEGAZ != OMEGA",
     "kepler primitive: hyperbolic dt<0 bisection", "kepler primitive: elliptic dt<0 quartic",
 ]
@@ -410,6 +411,7 @@ def run(c):
     corr_leapfrog(c, R, exe)
     corr_sei(c, R, exe)
     corr_saba(c, R, exe)
+    corr_unsync(c, R)
     corr_laws(c, exe)
     search_janus(c, R)
     search_symmetric(c, R)
@@ -1190,6 +1192,64 @@ def corr_saba(c, R, exe):
                      % (nbad, first["type"]), first)
 
 
+# ----------------------------------------------------------------------------- unsynchronised stepping replay
+def corr_unsync(c, R):
+    """tie of `uStep` / `uSync` (RV/Model/Reversal.lean): WHFast in Jacobi coordinates with safe_mode = 0 — the state machine
+    "first half drift or combined drift; force; kick; pending" and "synchronisation = pending half drift with the current dt",
+    replayed through the exported primitives, must reproduce steps(n) followed by either public synchronisation request
+    (synchronize(), integrate(t) with nothing left to integrate) bit for bit."""
+    rng = c.rng.fork()
+    clib = R.rb.clibrebound
+    ncmp, bad = 0, None
+    for rep in range(8 if c.thorough else 4):
+        n = rng.randint(3, 6)
+        G, parts = gen_planetary(rng, n, calm=True, moderate=(rep % 2 == 1))
+        fc = mkfc(G)
+        if rep % 2 == 1:
+            fc["nactive"] = rng.randint(2, n - 1)
+            for p in parts[fc["nactive"]:]:
+                p[0] = 0.0
+        dt = inner_period(G, parts) / rng.choice([20, 60]) * (1 if rep % 4 < 2 else -1)
+        nsteps = rng.randint(1, 5)
+        for via in ("synchronize", "integrate(t)"):
+            a, b = R.sim(fc, parts, "whfast"), R.sim(fc, parts, "whfast")
+            for s_ in (a, b):
+                s_.ri_whfast.safe_mode = 0
+                s_.move_to_com()
+                s_.dt = dt
+            a.steps(nsteps)
+            if via == "synchronize":
+                a.synchronize()
+            else:
+                a.integrate(a.t)
+            r = ctypes.byref(b)
+            b.gravity_ignore_terms = 1
+            clib.reb_integrator_whfast_init(r)
+            clib.reb_integrator_whfast_from_inertial(r)
+            pending = False
+            for k in range(nsteps):                                   # uStep
+                co = dt if pending else dt / 2.
+                clib.reb_whfast_kepler_step(r, ctypes.c_double(co))
+                clib.reb_whfast_com_step(r, ctypes.c_double(co))
+                clib.reb_integrator_whfast_to_inertial(r)
+                clib.reb_simulation_update_acceleration(r)
+                clib.reb_whfast_interaction_step(r, ctypes.c_double(dt))
+                pending = True
+            if pending:                                               # uSync
+                clib.reb_whfast_kepler_step(r, ctypes.c_double(dt / 2.))
+                clib.reb_whfast_com_step(r, ctypes.c_double(dt / 2.))
+            clib.reb_integrator_whfast_to_inertial(r)
+            ncmp += 1
+            da, db = R.doubles(a), R.doubles(b)
+            if [d2h(v) for v in da] != [d2h(v) for v in db] and not relerr(da, db, n) <= 64 * n * 2.3e-16 and bad is None:
+                bad = dict(via=via, steps=nsteps, N=n, N_active=fc["nactive"], dt=dt, error=relerr(da, db, n))
+            c.count(("corr-unsync", via, nsteps, dt < 0, fc["nactive"] != -1), n=nsteps)
+    c.cov["unsynchronised_stepping_replays_compared"] = ncmp
+    if bad:
+        c.corr_break("WHFast safe_mode=0: the model of unsynchronised stepping (combined drifts, synchronisation = pending half drift with the current dt) "
+                     "replayed through the primitives differs from steps(n) + %s" % bad["via"], bad)
+
+
 # ----------------------------------------------------------------------------- public entry points
 def entry_points(c, R):
     """every public function / attribute that reaches the reversal mechanism, extracted from the headers of the anchored files
@@ -1275,6 +1335,42 @@ def entry_points(c, R):
                 clib.reb_simulation_steps(ctypes.byref(b), ctypes.c_uint(5))
                 if [d2h(v) for v in R.doubles(b)] != d0:
                     bad.append("janus: round trip after reb_integrator_janus_reset is not exact")
+    # the two public ways of asking for a synchronisation must agree while a half step is pending: sim.synchronize() and an
+    # integrate() call with nothing left to integrate (an output request at the time already reached) — also twice in a row, also with
+    # keep_unsynchronized, and the run must continue identically afterwards
+    npaths = 0
+    for fam, opts in ([("whfast", dict(coordinates=k)) for k in WH_COORDS] + [("saba", dict(type=t)) for t in ("2", "10,6,4")] +
+                      [("eos", dict(phi0="lf4", phi1="lf", n=2)), ("eos", dict(phi0="lf", phi1="lf4", n=3))]):
+        for keep in ((0, 1) if fam != "eos" else (0,)):
+            for sign in (1, -1):
+                pair = []
+                for via in ("synchronize", "integrate"):
+                    s_ = mk(fam)
+                    ri = getattr(s_, "ri_" + fam)
+                    for k_, v_ in opts.items():
+                        setattr(s_.ri_whfast if (fam == "whfast") else ri, k_, v_)
+                    ri.safe_mode = 0
+                    if keep:
+                        ri.keep_unsynchronized = 1
+                    s_.dt = 0.03 * sign
+                    s_.steps(5)
+                    rec = []
+                    for rep_ in range(2):
+                        if via == "synchronize":
+                            s_.synchronize()
+                        else:
+                            s_.integrate(s_.t)
+                        rec.append([d2h(v) for v in R.doubles(s_)])
+                    s_.steps(3)
+                    s_.synchronize()
+                    rec.append([d2h(v) for v in R.doubles(s_)])
+                    pair.append(rec)
+                npaths += 1
+                if pair[0] != pair[1]:
+                    j_ = next(i for i in range(3) if pair[0][i] != pair[1][i])
+                    bad.append("%s %s keep_unsynchronized=%d dt%s0: integrate(t) with a half step pending differs from synchronize() (%s)"
+                               % (fam, opts, keep, ">" if sign > 0 else "<", ["at the request", "at the repeated request", "after continuing"][j_]))
+    c.cov["synchronisation_entry_paths_compared"] = npaths
     # generic public C entry points on a JANUS simulation
     a, b = mk("janus"), mk("janus")
     clib.reb_simulation_steps(ctypes.byref(a), ctypes.c_uint(4))
@@ -1690,19 +1786,26 @@ def sym_factors():
     names = [vname(v) for v in sym_variants()]
     noflag = [n for n in names if not (n.startswith("whfast") or n.startswith("saba"))]
     novar = [n for n in names if n not in ("leapfrog", "whfast-jacobi")]
-    F = dict(scheme=names, safe=["1", "0"], turn=["sync", "restore", "flag"], evA=EVENTS_S, evB=EVENTS_S, com=["moved", "boost"],
+    nokeep = [n for n in names if not (n.startswith("whfast") or n.startswith("saba"))]
+    F = dict(scheme=names, safe=["1", "0"], keep=["0", "1"], call=["steps", "single", "integrate"], syncvia=["synchronize()", "integrate(t)"],
+             turn=["sync", "restore", "flag"], evA=EVENTS_S, evB=EVENTS_S, com=["moved", "boost"],
              roles=["all", "tp_massless"], cb=["none", "pre", "post", "pre+post"], force=["none", "k"], var=["no", "yes"], G=["1", "other"],
              sign=["+", "-"], fam=["calm_long", "calm_short", "moderate"])
     X = [("scheme", "leapfrog", "safe", "0", "LEAPFROG has no safe_mode"),
+         ("keep", "1", "safe", "1", "rejected by the code: keep_unsynchronized == 1 is not compatible with safe_mode"),
+         ("keep", "1", "scheme", nokeep, "keep_unsynchronized exists only for WHFast and SABA"),
          ("scheme", noflag, "turn", "flag", "no recalculation flag outside WHFast/SABA"),
          ("scheme", noflag, "evA", "flag", "no recalculation flag outside WHFast/SABA"),
          ("scheme", noflag, "evB", "flag", "no recalculation flag outside WHFast/SABA"),
          ("scheme", novar, "var", "yes", "variational equations exist only for LEAPFROG and WHFast/Jacobi (SABA raises, the others ignore them)"),
          ("var", "yes", "roles", "tp_massless", "variational particles of test particles: not generated"),
          ("com", "boost", "fam", "calm_long", "ill-conditioned beyond 1000 steps: |x| grows with t"),
+         ("com", "boost", "force", "k", "an external force with a net pull on a travelling centre of mass: WHFast's DH / WHDS / barycentric coordinates assume a uniformly "
+                                        "moving COM and do not converge then (dt vs dt/4 differ by O(1), Jacobi 2e-4): not a reversal question; noted as an observation"),
          ("force", "k", "fam", "calm_long", "cost: Python callback"),
+         ("var", "yes", "fam", "calm_long", "tangent vectors grow like t: the bound is calibrated for bounded states (4.5e-8 against 3e-8 at 1e4 steps)"),
          ("cb", ["pre", "post", "pre+post"], "fam", "calm_long", "cost: Python callback")]
-    return F, X, ["safe", "turn", "evA", "evB", "com", "roles", "var", "force"]
+    return F, X, ["safe", "keep", "call", "syncvia", "turn", "evA", "evB", "com", "roles", "var", "force"]
 
 
 def build_sym_case(rng, f, nmax):
@@ -1736,21 +1839,32 @@ def build_sym_case(rng, f, nmax):
             for k3 in range(6):
                 p[1 + k3] += off[k3]
         nst = min(nst, 1000)
-    return dict(variant=list(variant), fc=fc, parts=parts, dt=dt, nst=nst, safe=int(f["safe"]), turn=f["turn"], evA=f["evA"], evB=f["evB"], com=f["com"],
+    return dict(variant=list(variant), fc=fc, parts=parts, dt=dt, nst=nst, safe=int(f["safe"]), keep=int(f["keep"]), call=f["call"], syncvia=f["syncvia"],
+                turn=f["turn"], evA=f["evA"], evB=f["evB"], com=f["com"],
                 var=f["var"] == "yes", dtfacs=[rng.choice([0.5, 0.7, 1.5]), rng.choice([0.8, 1.25])], G=G, n=n)
 
 
 def sym_run(R, P, dtdiv=1):
-    """forward leg of nst steps with event evA after step s and evB after step s+1 (sync = synchronize; dt = synchronize,
-    then the user changes the step; save = binary file round trip of the possibly unsynchronized simulation, continue on the
-    restored object; flag = synchronize, then set ri_whfast.recalculate_coordinates_this_timestep as documented after
-    touching particles); turning point: synchronize, then (restore | set the flag | nothing), negate dt; mirrored backward
-    leg; synchronize.  dtdiv: all steps divided / all counts multiplied (dt-halving discriminator)."""
+    """forward leg of nst steps with event evA after step s and evB after step s+1 (sync = an output synchronisation; dt = really
+    synchronize, then the user changes the step; save = binary file round trip of the possibly unsynchronized simulation, continue
+    on the restored object; flag = really synchronize, then set ri_whfast.recalculate_coordinates_this_timestep as documented after
+    touching particles); turning point: really synchronize, then (restore | set the flag | nothing), negate dt; mirrored backward
+    leg; synchronize.
+    call: how steps are taken — steps(n) | n times step() | integrate() without exact finish time (which synchronizes at its end);
+    syncvia: how a synchronisation is requested — sim.synchronize() | sim.integrate(sim.t), an integrate() call with nothing left
+    to integrate (an output request at the time already reached);
+    keep = 1: ri_*.keep_unsynchronized — output synchronisations leave the internal state unsynchronized; where the state must
+    really be synchronized (before dt is changed) the user switches it off for that call.
+    dtdiv: all steps divided / all counts multiplied (dt-halving discriminator)."""
     variant = tuple(P["variant"])
     s = R.sim(P["fc"], P["parts"], "leapfrog")
     configure(s, variant)
-    if P["safe"] == 0 and variant[0] in ("whfast", "saba", "eos"):
-        getattr(s, "ri_" + variant[0]).safe_mode = 0
+    ri = getattr(s, "ri_" + variant[0]) if variant[0] in ("whfast", "saba", "eos") else None
+    if P["safe"] == 0 and ri is not None:
+        ri.safe_mode = 0
+    keep = bool(P.get("keep")) and variant[0] in ("whfast", "saba")
+    if keep:
+        ri.keep_unsynchronized = 1
     if P["com"] == "moved" and variant[0] != "leapfrog":
         s.move_to_com()
     if P["var"]:
@@ -1762,16 +1876,51 @@ def sym_run(R, P, dtdiv=1):
     d0 = R.doubles(s)
     segs = []          # [dt, n, synchronized_after]: the backward leg synchronizes exactly where the forward leg did (for EOS an
                        # unsynchronised pair of steps is a different — still symmetric — scheme than two synchronized ones)
+    via_integrate = P.get("syncvia") == "integrate(t)"
+    call = P.get("call", "steps")
+
+    def request_sync(s):
+        if via_integrate:
+            s.integrate(s.t)              # nothing left to integrate: only synchronizes
+        else:
+            s.synchronize()
+
+    def really_sync(s):
+        r_ = getattr(s, "ri_" + variant[0]) if keep else None
+        if keep:
+            r_.keep_unsynchronized = 0
+        request_sync(s)
+        if keep:
+            r_.keep_unsynchronized = 1
+
+    def advance(s, n):
+        """n steps; returns True if the call pattern synchronized at its end"""
+        if call == "single":
+            for _ in range(n):
+                s.step()
+            return False
+        if call == "integrate":
+            before = s.steps_done
+            s.integrate(s.t + (n - 0.5) * s.dt, exact_finish_time=0)
+            if s.steps_done - before != n:
+                raise Infra("integrate() took %d steps instead of %d" % (s.steps_done - before, n))
+            return not keep
+        s.steps(n)
+        return False
 
     def fwd(s, n):
         if n > 0:
             segs.append([s.dt, n, False])
-            s.steps(n)
+            segs[-1][2] = advance(s, n)
         return s
 
     def event(s, ev, k):
-        if ev in ("sync", "dt", "flag"):
-            s.synchronize()
+        if ev == "sync":
+            request_sync(s)
+            if segs and not keep:
+                segs[-1][2] = True
+        elif ev in ("dt", "flag"):
+            really_sync(s)
             if segs:
                 segs[-1][2] = True
         if ev == "dt":
@@ -1792,8 +1941,9 @@ def sym_run(R, P, dtdiv=1):
         s = fwd(s, dtdiv)
         s = event(s, P["evB"], 1)
         s = fwd(s, nst - dtdiv - na)
+    request_sync(s)                                # what the user looks at …
     d1 = R.doubles(s)
-    s.synchronize()
+    really_sync(s)                                 # … and the real synchronisation before the step is negated
     if P["turn"] == "restore":
         s = reload_sim(R, s, "save")
     elif P["turn"] == "flag":
@@ -1802,11 +1952,11 @@ def sym_run(R, P, dtdiv=1):
     for j in range(len(segs) - 1, -1, -1):
         d, n, _ = segs[j]
         if s.dt != -d:
-            s.dt = -d                             # (only after a synchronize: a dt event synchronized the forward leg here)
-        s.steps(n)
+            s.dt = -d                             # (only after a real synchronisation: a dt event synchronized the forward leg here)
+        advance(s, n)
         if j > 0 and segs[j - 1][2]:
-            s.synchronize()
-    s.synchronize()
+            really_sync(s)
+    really_sync(s)
     return d0, d1, R.doubles(s)
 
 
@@ -1838,10 +1988,13 @@ def search_symmetric(c, R):
                          ("dt" in evs, "dt changed by the user mid-run"), (f["com"] == "boost", "COM offset + boost (no move_to_com)"),
                          (f["roles"] != "all", "massless test particles"), (f["cb"] != "none", "callbacks pre/post"), (f["force"] == "k", "additional force, velocity independent"),
                          (P["var"], "variational particles with non-zero data"), (dt < 0, "dt < 0 first"), (f["G"] != "1", "G != 1"),
-                         (f["turn"] == "flag" or "flag" in evs, "documented recalculation flag set by the user")):
+                         (f["turn"] == "flag" or "flag" in evs, "documented recalculation flag set by the user"),
+                         (f["syncvia"] == "integrate(t)" and f["safe"] == "0", "half step pending when integrate(t) is asked to synchronize"),
+                         (f["keep"] == "1", "keep_unsynchronized = 1"), (f["call"] == "integrate", "steps taken by integrate()")):
             if cond:
                 dim("sym: " + nm)
-        tag = " ".join("%s=%s" % (k, f[k]) for k in F.names[1:] if f[k] not in ("none", "sync", "all", "1", "moved", "no", "+", "calm_short"))
+        tag = " ".join("%s=%s" % (k, f[k]) for k in F.names[1:] if (k, f[k]) not in (("safe", "1"), ("keep", "0"), ("call", "steps"), ("syncvia", "synchronize()"),
+               ("turn", "sync"), ("evA", "none"), ("evB", "none"), ("com", "moved"), ("roles", "all"), ("cb", "none"), ("force", "none"), ("var", "no"), ("G", "1"), ("sign", "+"), ("fam", "calm_short")))
         rep_d = dict(integrator=variant[0], variant=list(variant), case=P, factors=f, G=G, dt=dt, nsteps=nst, particles=P["parts"], error=e,
                      procedure="add particles; configure per `factors`; forward leg with the two adjacent events; synchronize; turning point; mirrored backward leg; synchronize; "
                                "relative max-norm difference to the start")
